@@ -23,7 +23,9 @@ class Fn:
         self.impl_self = d.get("impl_self")
         self.impl_trait = d.get("impl_trait")
         self.impl_trait_args = d.get("impl_trait_args", [])
-        self.derived = bool(d.get("impl_auto_derived")) or bool(d.get("impl_derive"))
+        # produced by a derive or a foreign macro; a `macro_rules!` of this crate expands to the crate's own, hand-written code
+        dv = d.get("impl_derive")
+        self.derived = bool(d.get("impl_auto_derived")) or (bool(dv) and not (dv.get("kind") == "Bang" and dv.get("macro_krate") == facts.d.get("crate")))
         self.blocks = [b for b in self.mir["blocks"] if not b["cleanup"]]
         self.block_by_id = {b["id"]: b for b in self.mir["blocks"]}
         self.locals = self.mir["locals"]
